@@ -286,6 +286,21 @@ func AtomicStore(p unsafe.Pointer) { call(request{kind: opAtomicStore, obj: p}) 
 // iteration order; fixing it makes executions replayable, switching it explores order dependence.
 var MapOrder int
 
+// SetMapOrderChoices makes the order of EVERY single map iteration of the execution in progress an environment
+// choice (default order, or reversed at the cost of one deviation). Off by default: it adds a choice point per
+// iteration. (The flag lives in the scheduler and is read through a non-generic function of this package, which is
+// compiled without race instrumentation: RangeMap itself is instantiated - and instrumented - in its callers.)
+func SetMapOrderChoices(on bool) {
+	if s := S; s != nil {
+		s.mapChoices = on
+	}
+}
+
+func mapOrderChoices() bool {
+	s := S
+	return s != nil && active.Load() && s.mapChoices
+}
+
 // MapOrders returns the orders a harness enumerates: ascending and descending, and with all their rotations by 1
 // and 2 as well.
 func MapOrders(all bool) []int {
@@ -315,7 +330,13 @@ func RangeMap[M ~map[K]V, K comparable, V any](m M) iter.Seq2[K, V] {
 			keys = append(keys, k)
 		}
 		sortKeys(keys)
-		if MapOrder&1 == 1 {
+		desc := MapOrder&1 == 1
+		if len(keys) > 1 && mapOrderChoices() && Choose(2, 1, "map-order") == 1 {
+			// this one iteration runs in the opposite order (two concurrent iterations of equal maps may then
+			// disagree, as they may with Go's randomised iteration)
+			desc = !desc
+		}
+		if desc {
 			for i, j := 0, len(keys)-1; i < j; i, j = i+1, j-1 {
 				keys[i], keys[j] = keys[j], keys[i]
 			}
